@@ -41,7 +41,9 @@ THEOREMS = {
     "C11": ("TrVerif.Props.C11", ["Tr.C11_connSet", "Tr.C11_restrict", "Tr.C11_answers", "Tr.C11_route"]),
     "C12": ("TrVerif.Props.NonVacuity", ["Tr.C12_full_accessibility_departure", "Tr.C12_full_accessibility_departure_indexed", "Tr.fwdStep_shift", "Tr.fwdFoot_shift", "Tr.forwardNode_shift",
                                   "Tr.fwd_list_shift", "Tr.nv_full_shift", "Tr.C12_full_accessibility_arrival", "Tr.C12_full_accessibility_arrival_indexed", "Tr.revStep_shift", "Tr.revFoot_shift",
-                                  "Tr.reconLoop_shift", "Tr.optimizeJourney_shift", "Tr.applyFound_shift", "Tr.reverseNode_shift", "Tr.nv_full_shift_rev", "Tr.C12_index_transparent_route", "Tr.C12_index_transparent_accessibility", "Tr.fwdScan_from_start", "Tr.revScan_from_start",
+                                  "Tr.reconLoop_shift", "Tr.optimizeJourney_shift", "Tr.applyFound_shift", "Tr.reverseNode_shift", "Tr.nv_full_shift_rev",
+                                  "Tr.C12_full_route_arrival", "Tr.C12_full_route_arrival_indexed", "Tr.emit_shift", "Tr.bestAccess_shift", "Tr.revStep_shift1", "Tr.reverseJourney_shift",
+                                  "Tr.emitsShaped_of_inv", "Tr.nv_full_route_arrival", "Tr.C12_index_transparent_route", "Tr.C12_index_transparent_accessibility", "Tr.fwdScan_from_start", "Tr.revScan_from_start",
                                   "Tr.singleReverse_eq0", "Tr.before_start_early", "Tr.before_start_late", "Tr.fwdIndex_spec", "Tr.revIndex_spec", "Tr.C18_index_safe", "Tr.C07_scan_start",
                                   "Tr.C12_departure", "Tr.C12_arrival", "Tr.C12_map_departure", "Tr.C12_map_arrival", "Tr.C12_departure_query", "Tr.C12_arrival_query",
                                   "Tr.C12_accessibility_departure", "Tr.C12_accessibility_arrival", "Tr.AdmFwd.shift", "Tr.AdmRev.shift", "Tr.Reach.shift", "Tr.RReach.shift",
@@ -172,7 +174,11 @@ _reg("C11", "PROOF (full, over the model): Tr.C11_answers / Tr.C11_route - route
      "under the all-inclusive scenario on the dataset with the excluded trips removed (filter commutes with both stable sorts; the calculation reads trips only "
      "through the connection set). " + _M + "; the metamorphic relation is also run on the implementation with physically deleted trips.",
      "Lean 4 theorem + differential correspondence + metamorphic run on the implementation")
-_reg("C12", "PROOF (partial; BOTH accessibility calculations IN FULL, routes in two halves): (0) Tr.C12_full_accessibility_departure(_indexed) and Tr.C12_full_accessibility_arrival(_indexed) - "
+_reg("C12", "PROOF (partial; both accessibility calculations and ARRIVAL-TIME ROUTE queries IN FULL, departure-time routes in two halves): (00) Tr.C12_full_route_arrival(_indexed) - for every "
+     "well-formed dataset, every arrival-time route query and every offset (clock values clear of the sentinels -1 / MAX_INT), the answer of the shifted problem is the shifted answer: same "
+     "status and reason, and for a route EVERY clock time moved by k and every duration, distance, count, stop, line and trip unchanged - the whole pipeline related step by step (single-query "
+     "reverse scan Tr.revStep_shift1, best access stop Tr.bestAccess_shift, reconstruction, clean-up, emission Tr.emit_shift on journeys of the emitted shape, which the C01 chain provides: "
+     "Tr.emitsShaped_of_inv; Tr.nv_full_route_arrival). (0) Tr.C12_full_accessibility_departure(_indexed) and Tr.C12_full_accessibility_arrival(_indexed) - "
      "translation invariance of the CALCULATION ITSELF for accessibility in both time types (arrival: reverse scan Tr.revStep_shift, reconstruction Tr.reconLoop_shift, clean-up with all four rewrite "
      "cases Tr.applyFound_shift / Tr.optimizeJourney_shift, transfer count; range condition = every label candidate stays >= 0 on both sides, the property's 'next to 0:00'; Tr.nv_full_shift_rev). For "
      "departure-time accessibility: for EVERY dataset (zero-duration hops, any footpaths), every query (first-waiting cap, limits, scenario) and every offset k, with the clock values clear of the "
